@@ -109,4 +109,95 @@ theorem C20_every_interval (me : Addr) (mode : Mode) (hm : mode ≠ .neither) (a
   unfold poll
   rw [List.flatMap_append, List.flatMap_cons, C20_all_once me mode hm accepts rows hgood hacc, List.append_assoc]
 
+/-- with no publication mechanism configured nothing is handed over -/
+theorem loop_neither_nil (me : Addr) (accepts : Handed → Bool) (rows : List Row) :
+    (loop me .neither accepts rows).1 = [] := by
+  induction rows with
+  | nil => rfl
+  | cons a t iht =>
+    simp only [loop]
+    cases handOf me a with
+    | none => rfl
+    | some x => exact iht
+
+/-- **Never twice, never out of order — whatever the mechanism answers.**  For arbitrary rows (also rows of
+    keyper sets the keyper is not in, or with out-of-range numbers) and an arbitrary publication mechanism,
+    what one tick hands over is a prefix of the rows' values in the order returned: no row is handed twice,
+    none is handed before an earlier one, none is invented. -/
+theorem C20_prefix (me : Addr) (mode : Mode) (accepts : Handed → Bool) (rows : List Row) :
+    (tick me mode accepts rows).1 <+: rows.filterMap (handOf me) := by
+  unfold tick
+  induction rows with
+  | nil => simp [loop]
+  | cons r rest ih =>
+    simp only [loop]
+    cases hr : handOf me r with
+    | none => simp
+    | some x =>
+      simp only [List.filterMap_cons, hr]
+      cases mode with
+      | neither => rw [loop_neither_nil]; exact List.nil_prefix
+      | broadcast =>
+        simp only
+        split
+        · exact (List.prefix_cons_inj x).2 ih
+        · exact (List.prefix_cons_inj x).2 List.nil_prefix
+      | callback =>
+        simp only
+        split
+        · exact (List.prefix_cons_inj x).2 ih
+        · exact (List.prefix_cons_inj x).2 List.nil_prefix
+
+/-- **When a tick ends cleanly.**  A tick ends without an error exactly when every row converts (keyper set
+    contains the keyper, numbers in range) and — when a mechanism is configured — every key was accepted. -/
+theorem C20_clean_iff (me : Addr) (mode : Mode) (accepts : Handed → Bool) (rows : List Row) :
+    (tick me mode accepts rows).2 = false ↔
+      ∀ r ∈ rows, ∃ h, handOf me r = some h ∧ (mode = .neither ∨ accepts h = true) := by
+  unfold tick
+  induction rows with
+  | nil => simp [loop]
+  | cons r rest ih =>
+    simp only [loop]
+    cases hr : handOf me r with
+    | none =>
+      simp only [Bool.true_eq_false, false_iff]
+      intro h
+      obtain ⟨x, hx, _⟩ := h r (by simp)
+      rw [hr] at hx; cases hx
+    | some x =>
+      cases mode with
+      | neither =>
+        simp only [ih, List.mem_cons, forall_eq_or_imp, hr, Option.some.injEq, true_or, and_true, exists_eq']
+        simp
+      | broadcast =>
+        simp only
+        by_cases ha : accepts x = true
+        · simp only [ha, if_true, ih, List.mem_cons, forall_eq_or_imp, hr, Option.some.injEq]
+          simp [ha]
+        · simp only [ha, Bool.false_eq_true, if_false, Bool.true_eq_false, false_iff]
+          intro h
+          obtain ⟨y, hy, hz⟩ := h r (by simp)
+          rw [hr] at hy; cases hy
+          rcases hz with hz | hz
+          · cases hz
+          · exact ha hz
+      | callback =>
+        simp only
+        by_cases ha : accepts x = true
+        · simp only [ha, if_true, ih, List.mem_cons, forall_eq_or_imp, hr, Option.some.injEq]
+          simp [ha]
+        · simp only [ha, Bool.false_eq_true, if_false, Bool.true_eq_false, false_iff]
+          intro h
+          obtain ⟨y, hy, hz⟩ := h r (by simp)
+          rw [hr] at hy; cases hy
+          rcases hz with hz | hz
+          · cases hz
+          · exact ha hz
+
+/-! non-vacuity: a refusal in the middle — the refused key was handed, the one behind it was not -/
+example :
+    tick 7 .callback (fun h => h.eon != 4)
+      [⟨3, 100, 50, [7, 8], 1⟩, ⟨4, 101, 60, [7, 9], 2⟩, ⟨5, 102, 60, [6, 7], 2⟩] =
+      ([⟨100, 50, 1, 3⟩, ⟨101, 60, 2, 4⟩], true) := by decide
+
 end Shutter.Properties.C20
